@@ -68,6 +68,8 @@ func main() {
 	trace := flag.Bool("trace", false, "trace instructions")
 	verbose := flag.Bool("v", false, "verbose")
 	transcript := flag.String("transcript", "", "write solver transcript")
+	dumpQ := flag.String("dump-queries", "", "directory: write every -dump-every-th decided query as a standalone SMT-LIB2 script (cross-solver diff)")
+	dumpEvery := flag.Int("dump-every", 50, "sampling period for -dump-queries")
 	replayDec := flag.String("replay-decisions", "", "JSON file with a decision prefix to run once")
 	tags := flag.String("tags", "", "build tags")
 	fixAsg := flag.String("fix-assignment", "", "replay: JSON {assignment, ch_decisions}; run one concrete path")
@@ -145,6 +147,10 @@ func main() {
 	for _, h := range harnesses {
 		opts := &runOpts{sizes: &types.StdSizes{WordSize: 8, MaxAlign: 8}, maxSteps: *maxSteps, maxPreempt: *preempt, tracing: *trace, verbose: *verbose}
 		solver, err := newSolver(*solverBin, solverArgs(*solverBin), *qTimeout, *transcript)
+		if err == nil && *dumpQ != "" {
+			os.MkdirAll(*dumpQ, 0755)
+			solver.dumpDir, solver.dumpEvery = *dumpQ, *dumpEvery
+		}
 		if err != nil {
 			fmt.Fprintln(os.Stderr, "solver:", err)
 			os.Exit(2)
